@@ -21,6 +21,10 @@ const METHOD: &str = "METHOD";
 const PARAMETER: &str = "ARG";
 const COMMENT: &str = "COMMENT";
 
+/// How deep `CLASS` sections may be nested. Reading them recurses once per level, so without a limit a file of nothing but
+/// ever deeper indented `CLASS` lines overflows the stack.
+const MAX_CLASS_NESTING: usize = 64;
+
 /// Reads a enigma `.mapping` file, by opening the file given by the path.
 ///
 /// This appends into the mappings.
@@ -92,8 +96,12 @@ pub fn read_into<Ns>(reader: impl Read, mappings: &mut Mappings<2, Ns>) -> Resul
 					mappings: &mut Mappings<2, Ns>,
 					iter: &mut WithMoreIdentIter<impl Iterator<Item=Result<EnigmaLine>>>,
 					line: EnigmaLine,
-					parent: Option<(&JavaString, &JavaString)>
+					parent: Option<(&JavaString, &JavaString)>,
+					nesting: usize,
 				) -> Result<()> {
+					if nesting > MAX_CLASS_NESTING {
+						bail!("classes are nested more than {MAX_CLASS_NESTING} deep");
+					}
 					let (src, dst) = match line.fields.as_slice() {
 						[src] => (src, None),
 						[src, mod_] if is_modifier(mod_) => (src, None),
@@ -117,7 +125,7 @@ pub fn read_into<Ns>(reader: impl Read, mappings: &mut Mappings<2, Ns>) -> Resul
 
 					iter.next_level().on_every_line(|iter, line| {
 						match line.first_field.as_str() {
-							CLASS => parse_class(mappings, iter, line, Some((&parent_src, &parent_dst))),
+							CLASS => parse_class(mappings, iter, line, Some((&parent_src, &parent_dst)), nesting + 1),
 							FIELD => {
 								let (src, dst, desc) = match line.fields.as_slice() {
 									[src, desc] => (src, None, desc),
@@ -201,7 +209,7 @@ pub fn read_into<Ns>(reader: impl Read, mappings: &mut Mappings<2, Ns>) -> Resul
 
 					Ok(())
 				}
-				parse_class(mappings, iter, line, None)
+				parse_class(mappings, iter, line, None, 0)
 			},
 			tag => bail!("unknown mapping target {tag:?} for inside root, allowed are: `CLASS`"),
 		}
